@@ -51,6 +51,9 @@ ERASED = OWNERS + VIEWS
 # picked (libnano's carray storage hands out `const T&` from its non-const accessors too); the view OBJECT itself changes
 # only by an assignment to it
 CONST_VIEWS = r'tensor_carray_storage_t|_cmap_t$|tensor_cmap_t<|Map<const '
+# const methods of erased owner types that write a `mutable` member (include/nano/feature.h: feature_t::set_label() const
+# fills in m_labels): the exceptions to deep constness, kept in step with the classification table of scan.py
+MUTATING_CONST_METHODS = ('set_label',)
 ASSIGN_OPS = ('operator=', 'operator+=', 'operator-=', 'operator*=', 'operator/=')
 # the obligations of a frame target: every write against the assigns clause (always on), memory safety of the model
 # (slot indices, pointers).  Arithmetic overflow of erased / havocked counters is not a frame question (C02, C16, C17 own it).
@@ -324,6 +327,15 @@ class FrameTrack:
                 if t not in out:
                     out.append(t)
                 self.hoisted.add(id(n))
+        if n.get('kind') == 'CXXMemberCallExpr' and n.get('inner') and n['inner'][0].get('kind') == 'MemberExpr' \
+                and n['inner'][0].get('name') in MUTATING_CONST_METHODS and n['inner'][0].get('inner'):
+            # a const method of an erased owner type that writes a `mutable` member of its object (the exceptions to "constness
+            # is deep" that the static scan lists): the object is written whatever its const qualification
+            o = unwrap(n['inner'][0]['inner'][0])
+            if self.mention(P, o):
+                a = f'{self.touch}({P.addr(o)})'
+                if a not in out:
+                    out.append(a)
         if self.mention(P, n):
             ctx = self.context(parents)
             if ctx == 'mutable' and self.const_view(n) and not self.assigned_to(n, parents):
